@@ -478,6 +478,9 @@ func runC07(c *an.Ctx) {
 					}
 				}
 			}
+			if os.Getenv("HDRCHECK_USESURVEY") != "" {
+				checkResultUse(c, "C07.w", p.RepoFuncs()...)
+			}
 			if os.Getenv("HDRCHECK_PROVSURVEY") != "" {
 				checkResultProvenance(c, "C07.x", p.RepoFuncs()...)
 			}
